@@ -134,6 +134,11 @@ def build(rs, plan):
             lr = [rs[q] for q in loc]
             c.append_gate(ConstantUnitaryGate(table_matrix(tab), lr), list(loc))
             recs.append(exact.op_record('TABLE', [], loc, t=tab))
+        elif it[0] == 'u':                  # user-defined Python gate (harness/usergates.py); its semantics is the library gate it copies
+            from harness import usergates
+            _, cls, p, loc = it
+            c.append_gate(getattr(usergates, cls)(), list(loc), reals(p))
+            recs.append(exact.op_record(usergates.SEMANTICS[cls], p, loc))
         else:
             _, srs, sub, loc = it
             sc, srec = build(srs, sub)
@@ -391,7 +396,7 @@ def enumerate_small(ctx, rng):
         for k in range(4):
             allk = list(itertools.product(al, repeat=k))
             if ctx.quick and len(rs) == 3 and k == 3:
-                allk = rng.sample(allk, 450)
+                allk = rng.sample(allk, 200)
                 sampled = True
             plans += [(rs, list(p)) for p in allk]
     return plans, counts, sampled
@@ -446,19 +451,21 @@ def random_item(rng, rs, depth=0):
 
 
 def random_plans(ctx, rng):
+    """(radixes, plan, fold?, rich?) -- three size classes: small (dim <= 72, every clause), medium (dim <= 300) and large
+    (dim 512..4096) with the semantic and explicit-parameter clauses only."""
     out = []
-    n_small, n_big = (160, 6) if ctx.quick else (3000, 120)
-    for i in range(n_small + n_big):
-        big = i >= n_small
-        while True:
-            n = rng.randint(4, 6) if big else rng.randint(1, 6)
-            rs = [rng.choice([2, 2, 2, 3, 3, 4]) for _ in range(n)]
-            dim = int(np.prod(rs))
-            if (big and 512 <= dim <= 4096) or (not big and dim <= 256):
-                break
-        nops = rng.randint(5, 40) if not big else rng.randint(8, 20)
-        plan = [random_item(rng, rs) for _ in range(nops)]
-        out.append((tuple(rs), plan, rng.random() < 0.3, not big))
+    classes = [('small', 120, 1, 72, 5, 40), ('medium', 30, 73, 300, 5, 25), ('large', 6, 512, 4096, 6, 15)]
+    if not ctx.quick:
+        classes = [('small', 1000, 1, 72, 5, 40), ('medium', 200, 73, 300, 5, 40), ('large', 30, 512, 4096, 6, 25)]
+    for label, count, dlo, dhi, olo, ohi in classes:
+        for _ in range(count):
+            while True:
+                n = rng.randint(1, 6) if label == 'small' else rng.randint(3, 6)
+                rs = [rng.choice([2, 2, 2, 3, 3, 4]) for _ in range(n)]
+                if dlo <= int(np.prod(rs)) <= dhi:
+                    break
+            plan = [random_item(rng, rs) for _ in range(rng.randint(olo, ohi))]
+            out.append((tuple(rs), plan, rng.random() < 0.3, label == 'small'))
     return out
 
 
@@ -477,8 +484,9 @@ def build_cases(ctx):
     rng = random.Random(ctx.seed * 1000003 + 6)
     recipes = []
     plans, counts, sampled = enumerate_small(ctx, rng)
-    for rs, plan in plans:
-        recipes.append({'rs': list(rs), 'plan': plan, 'seed': rng.randrange(1 << 30), 'fold': False, 'source': 'enumerated'})
+    for i, (rs, plan) in enumerate(plans):
+        recipes.append({'rs': list(rs), 'plan': plan, 'seed': rng.randrange(1 << 30), 'fold': False, 'source': 'enumerated',
+                        'rich': i % 3 == 0 or not ctx.quick})
     for rs, plan, fold, rich in random_plans(ctx, rng):
         recipes.append({'rs': list(rs), 'plan': plan, 'seed': rng.randrange(1 << 30), 'fold': fold, 'source': 'random', 'rich': rich})
     # expensive recipes first so that the worker processes finish together
@@ -521,8 +529,9 @@ def run(ctx: Ctx) -> Outcome:
 
     def laws_pass():
         tl = time.time()
-        for cfg in (['MonoLawsCircuit.cfg', 'MonoLawsCircuit3.cfg'] if ctx.quick else ['MonoLawsCircuitT.cfg', 'MonoLawsCircuit3.cfg']):
-            laws[cfg] = common.tlc(LAWS, os.path.join(common.SPECS, 'exact', cfg), coverage=True, scratch=ctx.scratch, timeout=2400, workers=6)
+        for cfg in (['MonoLawsCircuit.cfg'] if ctx.quick else ['MonoLawsCircuitT.cfg', 'MonoLawsCircuit3T.cfg']):
+            laws[cfg] = common.tlc(LAWS, os.path.join(common.SPECS, 'exact', cfg), coverage=True, scratch=ctx.scratch, timeout=3000,
+                                   workers=6 if ctx.quick else 'auto')
         timing['laws_s'] = round(time.time() - tl, 1)
     th = None
     counts, sampled = {}, False
@@ -572,7 +581,7 @@ def run(ctx: Ctx) -> Outcome:
                 'with radixes in {2,3}; random = seeded; non-trivial = at least one operation; distinct by (radixes, ops, new parameters)',
         'exhaustive': False,
         'exhaustive_part': 'widths 1-2: all circuits of <= 3 ops; width 3: all circuits of <= 2 ops' + (
-            '; 3-op width-3 circuits: 450 sampled per register' if sampled else '; width 3: all circuits of 3 ops'),
+            '; 3-op width-3 circuits: 200 sampled per register' if sampled else '; width 3: all circuits of 3 ops'),
         'enumeration_size_per_register': counts, 'generator_states': gen_states,
         'by_source': by_source,
         'with_parameters': sum(1 for c in cases if c['nparams'] > 0),
